@@ -329,6 +329,246 @@ pub fn sample_model_xml(rng: &mut Rng) -> String {
   echo_model(&defs, &top)
 }
 
+// ---- families `order` and `names`: an expectation for typed results that is written out here (no model, no
+// evaluator): the FEEL type an item definition stands for is resolved by name in the whole set of definitions —
+// so it cannot depend on their order —, and a value of a small value language (literals of the eight simple types,
+// non-empty lists of values of one shape, contexts) is returned unchanged when it conforms, wrapped into a list
+// when the type is a list type and the value conforms to the item type, unwrapped when it is a list of one
+// conforming item, and null otherwise.
+
+#[derive(Clone, Debug)]
+enum RT {
+  S(usize),
+  L(Box<RT>),
+  C(Vec<(String, RT)>),
+}
+
+fn resolve_rt(defs: &Defs, item: &Item, fuel: usize) -> Option<RT> {
+  if fuel == 0 {
+    return None;
+  }
+  let by_name = |n: &String| -> Option<RT> { defs.iter().find(|d| &d.0 == n).and_then(|d| resolve_rt(defs, &d.1, fuel - 1)) };
+  let comps = |cs: &Vec<(String, Item)>| -> Option<RT> { cs.iter().map(|(n, i)| resolve_rt(defs, i, fuel - 1).map(|t| (n.clone(), t))).collect::<Option<Vec<_>>>().map(RT::C) };
+  match item {
+    Item::Simple(t, _) => Some(RT::S(*t)),
+    Item::CollSimple(t, _) => Some(RT::L(Box::new(RT::S(*t)))),
+    Item::Ref(n, _) => by_name(n),
+    Item::CollRef(n, _) => by_name(n).map(|t| RT::L(Box::new(t))),
+    Item::Comp(cs, _) => comps(cs),
+    Item::CollComp(cs, _) => comps(cs).map(|t| RT::L(Box::new(t))),
+  }
+}
+
+#[derive(Clone, Debug)]
+enum OV {
+  Lit(usize, usize),
+  List(Vec<OV>),
+  Ctx(Vec<(String, OV)>),
+}
+
+impl OV {
+  fn text(&self) -> String {
+    match self {
+      OV::Lit(t, i) => lits(*t)[*i].to_string(),
+      OV::List(xs) => format!("[{}]", xs.iter().map(|x| x.text()).collect::<Vec<_>>().join(", ")),
+      OV::Ctx(es) => format!("{{{}}}", es.iter().map(|(n, x)| format!("{}: {}", n, x.text())).collect::<Vec<_>>().join(", ")),
+    }
+  }
+}
+
+fn ov_conf(v: &OV, t: &RT) -> bool {
+  match (v, t) {
+    (OV::Lit(a, _), RT::S(b)) => a == b,
+    (OV::List(xs), RT::L(it)) => !xs.is_empty() && xs.iter().all(|x| ov_conf(x, it)),
+    (OV::Ctx(es), RT::C(fs)) => fs.iter().all(|(n, ft)| es.iter().any(|(m, x)| m == n && ov_conf(x, ft))),
+    _ => false,
+  }
+}
+
+/// `None`: null
+fn ov_expected(v: &OV, t: &RT) -> Option<OV> {
+  if ov_conf(v, t) {
+    return Some(v.clone());
+  }
+  if let RT::L(it) = t {
+    if ov_conf(v, it) {
+      return Some(OV::List(vec![v.clone()]));
+    }
+  }
+  if let OV::List(xs) = v {
+    if xs.len() == 1 && ov_conf(&xs[0], t) {
+      return Some(xs[0].clone());
+    }
+  }
+  None
+}
+
+fn ov_conforming(t: &RT, k: usize) -> OV {
+  match t {
+    RT::S(s) => OV::Lit(*s, k % 2),
+    RT::L(it) => OV::List(vec![ov_conforming(it, k), ov_conforming(it, k + 1)]),
+    RT::C(fs) => OV::Ctx(fs.iter().map(|(n, ft)| (n.clone(), ov_conforming(ft, k))).collect()),
+  }
+}
+
+/// a scalar that does not conform to `t`
+fn ov_wrong(t: &RT) -> OV {
+  match t {
+    RT::S(s) => OV::Lit((*s + 1) % 8, 0),
+    _ => OV::Lit(1, 0),
+  }
+}
+
+fn ov_values(t: &RT) -> Vec<OV> {
+  let c0 = ov_conforming(t, 0);
+  let c1 = ov_conforming(t, 1);
+  let w = ov_wrong(t);
+  let mut out = vec![c0.clone(), OV::List(vec![c0.clone()]), OV::List(vec![OV::List(vec![c0.clone()])]), OV::List(vec![c0.clone(), c1]), w.clone(), OV::List(vec![w.clone()]), OV::List(vec![c0.clone(), w])];
+  match t {
+    RT::C(fs) => {
+      if let OV::Ctx(es) = &c0 {
+        // a component missing; a component of another kind
+        out.push(OV::Ctx(es[..es.len() - 1].to_vec()));
+        let mut bad = es.clone();
+        bad[0].1 = ov_wrong(&fs[0].1);
+        out.push(OV::Ctx(bad.clone()));
+        out.push(OV::List(vec![OV::Ctx(bad)]));
+      }
+    }
+    RT::L(it) => {
+      let i0 = ov_conforming(it, 0);
+      out.push(i0.clone());
+      out.push(OV::List(vec![i0.clone()]));
+      out.push(OV::List(vec![i0, ov_wrong(it)]));
+    }
+    _ => {}
+  }
+  out
+}
+
+fn strip_av(defs: &Defs) -> Defs {
+  fn item(i: &Item) -> Item {
+    let cs = |cs: &Vec<(String, Item)>| cs.iter().map(|(n, c)| (n.clone(), item(c))).collect::<Vec<_>>();
+    match i {
+      Item::Simple(t, _) => Item::Simple(*t, Av::None),
+      Item::CollSimple(t, _) => Item::CollSimple(*t, Av::None),
+      Item::Ref(n, _) => Item::Ref(n.clone(), Av::None),
+      Item::CollRef(n, _) => Item::CollRef(n.clone(), Av::None),
+      Item::Comp(c, _) => Item::Comp(cs(c), Av::None),
+      Item::CollComp(c, _) => Item::CollComp(cs(c), Av::None),
+    }
+  }
+  defs.iter().map(|(n, i)| (n.clone(), item(i))).collect()
+}
+
+/// every arrangement of `0..n` (n ≤ 4), or `limit` arrangements drawn at random beside the identity and the reversal
+fn arrangements(n: usize, limit: usize, rng: &mut Rng) -> Vec<Vec<usize>> {
+  fn all(prefix: &mut Vec<usize>, n: usize, out: &mut Vec<Vec<usize>>) {
+    if prefix.len() == n {
+      out.push(prefix.clone());
+      return;
+    }
+    for i in 0..n {
+      if !prefix.contains(&i) {
+        prefix.push(i);
+        all(prefix, n, out);
+        prefix.pop();
+      }
+    }
+  }
+  let mut out = vec![];
+  if n <= 4 {
+    all(&mut vec![], n, &mut out);
+    return out;
+  }
+  out.push((0..n).collect());
+  out.push((0..n).rev().collect());
+  while out.len() < limit {
+    let mut p: Vec<usize> = (0..n).collect();
+    for i in (1..n).rev() {
+      p.swap(i, rng.below(i as u64 + 1) as usize);
+    }
+    if !out.contains(&p) {
+      out.push(p);
+    }
+  }
+  out
+}
+
+/// Sets of item definitions that refer to each other — chains of references, components of referenced types,
+/// collections of referenced types (also of collections), a reference with allowed values of its own — written in
+/// an order in which every reference points forward; with the names the echo / output decisions are typed by.
+fn order_library() -> Vec<(Defs, Vec<&'static str>)> {
+  let s = |x: &str| x.to_string();
+  vec![
+    (
+      vec![
+        (s("tA"), Item::Ref(s("tB"), Av::None)),
+        (s("tL"), Item::CollRef(s("tA"), Av::None)),
+        (s("tB"), Item::Ref(s("tC"), Av::None)),
+        (s("tC"), Item::Simple(1, Av::Cmp("ge", 2))),
+      ],
+      vec!["tA", "tL", "tB"],
+    ),
+    (
+      vec![
+        (s("tOrder"), Item::Comp(vec![(s("id"), Item::Simple(1, Av::None)), (s("customer"), Item::Ref(s("tCustomer"), Av::None))], Av::None)),
+        (s("tCustomer"), Item::Comp(vec![(s("name"), Item::Simple(0, Av::None)), (s("level"), Item::Ref(s("tLevel"), Av::None))], Av::None)),
+        (s("tPriority"), Item::Ref(s("tLevel"), Av::None)),
+        (s("tLevel"), Item::Simple(1, Av::None)),
+      ],
+      vec!["tOrder", "tPriority", "tCustomer"],
+    ),
+    (
+      vec![
+        (s("tMatrix"), Item::CollRef(s("tRows"), Av::None)),
+        (s("tRows"), Item::CollRef(s("tRow"), Av::None)),
+        (s("tRow"), Item::Comp(vec![(s("a"), Item::Ref(s("tCell"), Av::None)), (s("b"), Item::CollRef(s("tCell"), Av::None))], Av::None)),
+        (s("tCell"), Item::Simple(0, Av::Lits(0, 2))),
+      ],
+      vec!["tMatrix", "tRows", "tRow"],
+    ),
+    (
+      vec![
+        (s("tHolder"), Item::CollComp(vec![(s("x"), Item::Ref(s("tSmall"), Av::None)), (s("d"), Item::Ref(s("tDay"), Av::None))], Av::None)),
+        (s("tSmalls"), Item::CollRef(s("tSmall"), Av::None)),
+        (s("tSmall"), Item::Ref(s("tBase"), Av::Cmp("lt", 3))),
+        (s("tDay"), Item::Simple(3, Av::None)),
+        (s("tBase"), Item::Simple(1, Av::None)),
+      ],
+      vec!["tHolder", "tSmalls", "tSmall"],
+    ),
+  ]
+}
+
+/// Names of item definitions, after the name classes of property C10: words separated by blanks, words joined by the
+/// additional symbols `. / - ' + *` with and without blanks around them, two blanks, words that are no ASCII
+/// letters, words that are names of built-in types or keywords.
+const DEF_NAMES: [&str; 22] = [
+  "t Person",
+  "Risk - Category",
+  "Risk-Category",
+  "a + b",
+  "a+b",
+  "a +b",
+  "x . y",
+  "x.y",
+  "person's age",
+  "person ' s age",
+  "rate / 100",
+  "p * q",
+  "p*q",
+  "t  Person",
+  "żółw 日本",
+  "Δx - n_1",
+  "date and time of birth",
+  "number of items",
+  "list of numbers",
+  "a - b - c",
+  "for every item",
+  "A-1 / B.2",
+];
+
 struct Case {
   family: &'static str,
   req: String,
@@ -486,8 +726,95 @@ pub fn run(cfg: &Cfg) -> Report {
     run_echo("tree", &defs, &top.0, Sexp::tagged("named", vec![Sexp::str(&top.0)]), &values, &mut cases, &mut rep);
   }
 
+  // ---- order: every arrangement of the item definitions of a model (references point forward, backward, through
+  // chains, into collections); the definitions go to the driver in the arrangement the document has them in
+  let mut order_sets: Vec<(Defs, Vec<String>)> = order_library().into_iter().map(|(d, tops)| (d, tops.iter().map(|t| t.to_string()).collect())).collect();
+  for _ in 0..(if thorough { 60 } else { 8 }) {
+    let mut defs: Defs = vec![];
+    let n_defs = 3 + rng.below(2) as usize;
+    for k in 0..n_defs {
+      let it = gen_item(&mut rng, &defs, 0);
+      defs.push((format!("t{}", k), it));
+    }
+    let tops = vec![defs[n_defs - 1].0.clone(), defs[n_defs - 2].0.clone()];
+    order_sets.push((defs, tops));
+  }
+  for (defs, tops) in &order_sets {
+    let mut per_top: Vec<(String, Vec<String>)> = vec![];
+    for top in tops {
+      let item = defs.iter().find(|d| &d.0 == top).unwrap().1.clone();
+      let mut values = vec![];
+      for _ in 0..2 {
+        let c = conforming(&item, defs, &mut rng, 0);
+        values.push(c.clone());
+        values.push(violate(&c, &mut rng));
+        values.push(format!("[{}]", c));
+      }
+      values.push(rng.pick(&value_kinds()).to_string());
+      per_top.push((top.clone(), values));
+    }
+    for arr in arrangements(defs.len(), if thorough { 60 } else { 12 }, &mut rng) {
+      let arranged: Defs = arr.iter().map(|i| defs[*i].clone()).collect();
+      rep.hit(if arr.windows(2).all(|w| w[0] < w[1]) { "order: as written" } else { "order: another arrangement" });
+      for (top, values) in &per_top {
+        run_echo("order", &arranged, top, Sexp::tagged("named", vec![Sexp::str(top)]), values, &mut cases, &mut rep);
+      }
+    }
+  }
+
+  // ---- names: item definitions named with blanks and additional symbols — as the type of the input, referenced
+  // by another definition, as the item type of a collection, as the type of a component; two definitions whose
+  // names differ in the blanks around a symbol only are two definitions
+  let name_defs = |name: &str, t: usize| -> Defs {
+    vec![
+      ("tUse".into(), Item::Ref(name.to_string(), Av::None)),
+      ("tColl".into(), Item::CollRef(name.to_string(), Av::None)),
+      ("tComp".into(), Item::Comp(vec![("v".into(), Item::Ref(name.to_string(), Av::None)), ("net amount".into(), Item::Simple(1, Av::None))], Av::None)),
+      (name.to_string(), Item::Simple(t, Av::Lits(t, 2))),
+    ]
+  };
+  for (k, name) in DEF_NAMES.iter().enumerate() {
+    let t = k % 8;
+    let mut defs = name_defs(name, t);
+    if k % 2 == 1 {
+      defs.rotate_right(1);
+    }
+    let l = lits(t);
+    let other = lits((t + 1) % 8)[0];
+    for (top, values) in [
+      (name.to_string(), vec![l[0].to_string(), l[1].to_string(), other.to_string(), format!("[{}]", l[0]), "null".to_string(), "absent".to_string()]),
+      ("tUse".to_string(), vec![l[0].to_string(), other.to_string(), "{}".to_string()]),
+      ("tColl".to_string(), vec![format!("[{}, {}]", l[0], l[1]), format!("[{}, {}]", l[0], other), l[0].to_string(), "[]".to_string()]),
+      ("tComp".to_string(), vec![format!("{{v: {}, net amount: 1}}", l[0]), format!("{{v: {}, net amount: 1}}", other), format!("{{v: {}}}", l[0]), "1".to_string()]),
+    ] {
+      run_echo("names", &defs, &top, Sexp::tagged("named", vec![Sexp::str(&top)]), &values, &mut cases, &mut rep);
+    }
+    rep.hit("names: definition name class");
+  }
+  for (n1, n2) in [("a + b", "a+b"), ("Risk - Category", "Risk-Category"), ("x . y", "x.y"), ("t  Person", "t Person"), ("p * q", "p*q")] {
+    let defs: Defs = vec![(n1.to_string(), Item::Simple(0, Av::None)), (n2.to_string(), Item::Simple(1, Av::None)), ("tBoth".into(), Item::Comp(vec![("s".into(), Item::Ref(n1.to_string(), Av::None)), ("n".into(), Item::Ref(n2.to_string(), Av::None))], Av::None))];
+    let values: Vec<String> = vec!["\"a\"".into(), "1".into(), "true".into()];
+    run_echo("names", &defs, n1, Sexp::tagged("named", vec![Sexp::str(n1)]), &values, &mut cases, &mut rep);
+    run_echo("names", &defs, n2, Sexp::tagged("named", vec![Sexp::str(n2)]), &values, &mut cases, &mut rep);
+    let both: Vec<String> = vec!["{s: \"a\", n: 1}".into(), "{s: 1, n: \"a\"}".into(), "{s: \"a\", n: \"a\"}".into()];
+    run_echo("names", &defs, "tBoth", Sexp::tagged("named", vec![Sexp::str("tBoth")]), &both, &mut cases, &mut rep);
+    rep.hit("names: two definitions differing in the blanks around a symbol");
+  }
+
+  // ---- two definitions of one name: the later one is the one that is used (`HashMap::insert` in `build`; the
+  // model's `lookup`, theorem `resolution_order_counterexample`) — outside the property (names are unique in a valid
+  // document), compared so that the boundary of `resolution_order_independent` is the code's
+  for (first, second) in [(1usize, 0usize), (0, 1), (1, 3), (2, 2)] {
+    let defs: Defs = vec![("tD".into(), Item::Simple(first, Av::None)), ("tR".into(), Item::Ref("tD".into(), Av::None)), ("tD".into(), Item::Simple(second, Av::Lits(second, 1)))];
+    let values: Vec<String> = vec![lits(first)[0].to_string(), lits(second)[0].to_string(), lits(second)[1].to_string(), "null".to_string()];
+    run_echo("duplicate-name", &defs, "tD", Sexp::tagged("named", vec![Sexp::str("tD")]), &values, &mut cases, &mut rep);
+    run_echo("duplicate-name", &defs, "tR", Sexp::tagged("named", vec![Sexp::str("tR")]), &values, &mut cases, &mut rep);
+  }
+
   // ---- output coercion
   let mut out_cases: Vec<Case> = vec![];
+  // (index into `out_cases`, expected value as FEEL text or `null`, signature): expectations written out in the harness
+  let mut out_expect: Vec<(usize, String, &'static str)> = vec![];
   {
     let mut run_out_kind = |kind: &'static str, defs: &Defs, type_ref: Option<&str>, vartype: Sexp, value: &str, out_cases: &mut Vec<Case>, rep: &mut Report| {
       let xml = output_model(defs, type_ref, value, kind);
@@ -570,6 +897,50 @@ pub fn run(cfg: &Cfg) -> Report {
     for v in value_kinds() {
       run_out(&vec![], None, Sexp::atom("none"), v, &mut out_cases, &mut rep);
       run_out(&vec![], Some("tNoSuchType"), Sexp::tagged("named", vec![Sexp::str("tNoSuchType")]), v, &mut out_cases, &mut rep);
+    }
+    // order / names on the output side (the allowed values are left out: they do not count for results, finding
+    // F63-result-allowed-values): every arrangement of the definitions, the result typed by each of the named
+    // definitions, against the expectation written out above (`ov_expected`)
+    let mut typed_results = |defs: &Defs, tops: &[String], arrs: &[Vec<usize>], kinds: &[&'static str], sig: &'static str, out_cases: &mut Vec<Case>, out_expect: &mut Vec<(usize, String, &'static str)>, rep: &mut Report| {
+      let defs = strip_av(defs);
+      for top in tops {
+        let rt = match defs.iter().find(|d| &d.0 == top).and_then(|d| resolve_rt(&defs, &d.1, 16)) {
+          Some(t) => t,
+          None => continue,
+        };
+        let values = ov_values(&rt);
+        for arr in arrs {
+          let arranged: Defs = arr.iter().map(|i| defs[*i].clone()).collect();
+          for v in &values {
+            let expected = ov_expected(v, &rt).map_or("null".to_string(), |x| x.text());
+            for kind in kinds {
+              let before = out_cases.len();
+              run_out_kind(kind, &arranged, Some(top), Sexp::tagged("named", vec![Sexp::str(top)]), &v.text(), out_cases, rep);
+              if out_cases.len() > before {
+                out_expect.push((before, expected.clone(), sig));
+              }
+            }
+          }
+        }
+      }
+    };
+    let sig_order = "typed result: the value differs from the expectation written out (item definitions that refer to each other, in some order)";
+    for (defs, tops) in &order_sets {
+      let arrs = arrangements(defs.len(), if thorough { 60 } else { 12 }, &mut rng);
+      typed_results(defs, tops, &arrs, &["decision"], sig_order, &mut out_cases, &mut out_expect, &mut rep);
+      // the first and the last arrangement also for knowledge models and decision services
+      let ends = vec![arrs[0].clone(), arrs[arrs.len() - 1].clone()];
+      typed_results(defs, &tops[..1], &ends, &["bkm", "service"], sig_order, &mut out_cases, &mut out_expect, &mut rep);
+    }
+    let sig_names = "typed result: the value differs from the expectation written out (item definition named with blanks or additional symbols)";
+    for (k, name) in DEF_NAMES.iter().enumerate() {
+      let mut defs = name_defs(name, k % 8);
+      if k % 2 == 1 {
+        defs.rotate_right(1);
+      }
+      let tops: Vec<String> = vec![name.to_string(), "tUse".into(), "tColl".into(), "tComp".into()];
+      let id: Vec<usize> = (0..defs.len()).collect();
+      typed_results(&defs, &tops, &[id], &["decision"], sig_names, &mut out_cases, &mut out_expect, &mut rep);
     }
   }
 
@@ -661,7 +1032,11 @@ pub fn run(cfg: &Cfg) -> Report {
         found
       };
       let has_coll_ref = c.req.contains("(collRef ");
-      let sig = if has_coll_ref && !has_ref_av {
+      let sig = if c.family == "order" {
+        "typed input: result differs from the specification (item definitions that refer to each other, in some order)".to_string()
+      } else if c.family == "names" {
+        "typed input: result differs from the specification (item definition named with blanks or additional symbols)".to_string()
+      } else if has_coll_ref && !has_ref_av {
         "collection of a referenced type: a non-conforming item is replaced by null inside the list instead of the list becoming null".to_string()
       } else if has_ref_av && !has_coll_ref {
         "allowed values of an item definition that references another item definition are ignored".to_string()
@@ -704,6 +1079,15 @@ pub fn run(cfg: &Cfg) -> Report {
     let ok = c.obs == sent || c.obs == "null" || c.obs == format!("(l {})", sent) || sent == format!("(l {})", c.obs);
     if !ok {
       rep.disagree(Kind::ImplVsSpec, c.family, "typed output is neither the value, its singleton list, its single item nor null", &format!("value {} | {}", c.value, c.xml), &c.obs, &sent);
+    }
+  }
+  for (ix, expected, sig) in &out_expect {
+    let c = &out_cases[*ix];
+    let exp = if expected == "null" { "null".to_string() } else { value_sexp(&eval(expected)).map(|s| s.to_string()).unwrap_or_default() };
+    let family = if sig.contains("in some order") { "order" } else { "names" };
+    rep.hit(&format!("{}: typed result against the written-out expectation ({})", family, if exp == "null" { "null" } else { "a value" }));
+    if c.obs != exp {
+      rep.disagree(Kind::ImplVsSpec, family, sig, &format!("value {} | {}", c.value, c.xml), &c.obs, &exp);
     }
   }
   let answers = model.ask_batch(&class_reqs);
